@@ -130,6 +130,10 @@ func gen(g *vh.Gen) {
 	g.Emit("life", "O0:P,k,DP,L0,DP,p0:dele,f0,DP")
 	g.Emit("life", "O0:P,O1:S,k,DP,DS,a0,DP,L1,f1,DS")
 	g.Emit("life", "k,nS,nP,DS,DP")
+	// QUIT with deletions pending in a slow store: Drain must wait for them
+	g.Emit("life", "o0:P,p0:dele,k,G,q0,DP,U,e0,DP")
+	g.Emit("life", "o0:P,p0:dele,o1:P,p1:pass,G,k,q0,q1,e1,DP,DS,U,e0,DP")
+	g.Emit("life", "o0:P,p0:dele,o1:S,p1:data,k,G,q0,f1,DS,DP,U,e0,DP")
 	for i := 0; i < g.N(45, 1000); i++ {
 		g.Emit("life", genLife(g))
 	}
